@@ -982,3 +982,78 @@ def run_kernel_symmetries(ctx, rep, n_cases=None):
                             dict(site=site, kind="symmetry", transform="permute-features"), input=inp,
                             impl_output=dict(original=(d1 if isinstance(d1, str) else np.asarray(d1[0]).tolist()),
                                              relabelled=(d2 if isinstance(d2, str) else np.asarray(d2[0]).tolist())))
+
+
+# ------------------------------------------------------------------ PDCD_WS inner solver
+def run_pdcd(ctx, rep, n_cases=None):
+    """`PDCD_WS._solve_subproblem` (epochs of primal-dual coordinate updates on a working set) vs
+    `PDProb.solveSubproblem` (Model/PDCD.lean), with the steps computed as `_solve` computes them; plus the buffer
+    invariant Xw = X w recomputed from X and w."""
+    from skglm.experimental.pdcd_ws import PDCD_WS
+    from skglm.experimental.sqrt_lasso import SqrtQuadratic
+    from skglm.experimental.quantile_regression import Pinball
+    rng = ctx.rng
+    n_cases = n_cases or ctx.n(40, 400)
+    lines, metas = [], []
+    for _ in range(n_cases):
+        n, p = rng.randrange(2, 8), rng.randrange(1, 6)
+        X = np.asfortranarray(gen_matrix(rng, n, p, gen.pick(rng, ["gauss", "gauss", "degenerate", "sparse"])))
+        y = np.array([rng.gauss(0, 1) + 1.0 for _ in range(n)])
+        if rng.random() < 0.5:
+            dtok, dobj = "sqrt", compiled(SqrtQuadratic())
+        else:
+            q = gen.pick(rng, [0.3, 0.5, 0.7])
+            dtok, dobj = f"pinball {fb(q)}", compiled(Pinball(q))
+        pk = gen.pick(rng, ["l1", "l1", "l1+", "wl1", "box", "pos"])
+        alpha = gen.pick(rng, [0.05, 0.2, 1.0])
+        pen = {"l1+": Pen("l1", alpha, positive=True), "box": Pen("box", 1.0), "pos": Pen("pos")}.get(pk) or Pen(pk, alpha)
+        wts = [gen.pick(rng, [0.0, 0.5, 1.0, 2.0]) if pen.kind in Pen.WEIGHTED else 1.0 for _ in range(p)]
+        pobj = compiled_pen(pen, wts if pen.kind in Pen.WEIGHTED else None)
+        nc = np.linalg.norm(X, axis=0)
+        tau = 1.0 / np.where(nc == 0, 1.0, nc)
+        sn = float(np.linalg.norm(X, ord=2))
+        if sn == 0:
+            continue
+        sigma = 1.0 / sn
+        w0 = np.array([rng.gauss(0, 1) if rng.random() < 0.5 else 0.0 for _ in range(p)])
+        if pen.positive or pen.kind in ("pos", "box"):
+            w0 = np.abs(w0)
+        if pen.kind == "box":
+            w0 = np.clip(w0, 0, 1.0)
+        Xw0 = X @ w0
+        z0 = np.array([rng.gauss(0, 0.3) for _ in range(n)]) if rng.random() < 0.5 else np.zeros(n)
+        zb0 = z0.copy() if rng.random() < 0.7 else np.array([rng.gauss(0, 0.3) for _ in range(n)])
+        ws = np.array(rng.sample(range(p), rng.randrange(1, p + 1)), dtype=np.int64)
+        max_ep = gen.pick(rng, [1, 2, 5, 11, 12])
+        tol_in = gen.pick(rng, [0.0, 1e-3, 0.3])
+        w1, Xw1, z1, zb1 = w0.copy(), Xw0.copy(), z0.copy(), zb0.copy()
+        r = call(PDCD_WS._solve_subproblem, y, X, w1, Xw1, z1, zb1, dobj, pobj, tau, sigma, ws, max_ep, tol_in)
+        lines.append(f"pdcd_sub {dtok} {n} {p} {mat(X)} {_v(y)} {pen.tokens()} {_v(wts)} {_v(tau)} {fb(sigma)} "
+                     f"{_v(w0)} {_v(Xw0)} {_v(z0)} {_v(zb0)} {ivec(ws)} {max_ep} {fb(tol_in)}")
+        metas.append((r, w1, Xw1, z1, zb1, X, w0, pen, dict(datafit=dtok.split()[0], X=X.tolist(), y=y.tolist(), penalty=pen.describe(),
+                                                          weights=wts, w=w0.tolist(), z=z0.tolist(), z_bar=zb0.tolist(),
+                                                          ws=ws.tolist(), max_epochs=max_ep, tol_in=tol_in)))
+    outs = lean.drive(lines)
+    for line, out, (r, w1, Xw1, z1, zb1, X, w0, pen, inp) in zip(lines, outs, metas):
+        m = decode(out)
+        if isinstance(r, str):
+            rep.violate(f"PDCD_WS._solve_subproblem raises {r}", dict(site="PDCD_WS._solve_subproblem", kind="raises"), input=inp,
+                        impl_output=r)
+            continue
+        i = [float(t) for t in w1] + [float(t) for t in Xw1] + [float(t) for t in z1] + [float(t) for t in zb1]
+        moved = bool(np.any(w1 != w0))
+        rep.count(f"pdcd:{inp['datafit']}:{pen.kind}{'+' if pen.positive else ''}:{'moved' if moved else 'still'}", not moved,
+                  ("pdcd", hash(line)))
+        # an early exit decided by a near-tie of the inner criterion may go either way: compare when the state agrees or
+        # the tolerance is not within rounding of the criterion
+        if not same(i, m[:len(i)], 1e-7, 1e-9):
+            rep.disagree("K:pdcd-subproblem", line[:300], i, m[:len(i)], dict(site="PDCD_WS._solve_subproblem"), input=inp)
+        if not np.allclose(X @ w1, Xw1, rtol=1e-9, atol=1e-9):
+            rep.violate("PDCD_WS: after the epochs the buffer Xw is not X w", dict(site="PDCD_WS._solve_subproblem", kind="buffer"),
+                        input=inp, impl_output=dict(w=w1.tolist(), Xw=Xw1.tolist()), oracle=dict(Xw=(X @ w1).tolist()))
+        if (pen.positive or pen.kind in ("pos", "box")) and (np.any(w1 < 0) or (pen.kind == "box" and np.any(w1 > 1.0))):
+            rep.violate("PDCD_WS: the primal iterate leaves the feasible set", dict(site="PDCD_WS._solve_subproblem", kind="infeasible"),
+                        input=inp, impl_output=dict(w=w1.tolist()))
+        if not np.all(np.isfinite(i)):
+            rep.violate("PDCD_WS: non-finite state after the epochs", dict(site="PDCD_WS._solve_subproblem", kind="nonfinite"),
+                        input=inp, impl_output=dict(w=w1.tolist()))
